@@ -425,7 +425,7 @@ func run(c Case) (o hx.Outcome) {
 	un := sched.Perturb(c.Perturb)
 	stats, err := desync.AssembleFile(context.Background(), target, idx, store, seeds,
 		desync.AssembleOptions{N: n, InvalidSeedAction: desync.InvalidSeedAction(c.Action % 3)})
-	sched.Quiesce(base)
+	sched.QuiesceFor(base, 20*time.Millisecond) // workers abandoned on AssembleFile's error returns never finish
 	hits := un()
 	_ = hits
 
